@@ -13,11 +13,44 @@ ENGINES = [
 ]
 
 # id -> (level, technique, text, note, design_ref)
+TRUST_CRDT = "Trusted: the harness (log-order mini-server, generators, reference models, monitors) and the Go runtime; replicas are the real client code reached through the public API and iface.Datatype. Exploration: says nothing about histories not generated."
+
 CHECKS = {
     "C01": ("exploration", "runtime monitoring: convergence oracle over seeded multi-replica histories of the real datatypes",
-            "Held on the K seeded histories reported in the evidence file: 2-4 real replicas per history, every public mutator, batches >= 11, nested values, clock advance past 10/100/1000, partial deliveries in log order, forced quiescent points and continuation; at each quiescent point all replicas are compared (canonical JSON view, sizes, sweep of element reads). Exploration is the right level: the space of histories x schedules is unbounded and the oracle is exact at each quiescent point.",
-            "Trusted: the harness log reproduces the server's delivery contract (decided separately by C05/C06); canonical JSON comparison. Not a proof: says nothing about histories not generated.",
+            "Held on the K seeded histories reported in the evidence file: 2-4 real replicas per history, every public mutator, batches >= 11, nested and Go-native values, clocks past 10/100/1000 and near 2^32/2^53/2^62, partial deliveries in log order, forced quiescent points and continuation; at each quiescent point all replicas are compared (canonical JSON view, sizes, sweep of element reads). Exploration is the right level: the space of histories x schedules is unbounded and the oracle is exact at each quiescent point.",
+            TRUST_CRDT + " The harness log reproduces the server's delivery contract (decided separately by C05/C06).",
             "DESIGN.md §4 C01"),
+    "C02": ("exploration", "runtime monitoring: reference-model comparator (int32 sum, LWW by (lamport,cuid), RGA tree) computed from the emitted operations only",
+            "Every replica and a log replay (the server's own copy) are compared with the outcome computed from the emitted operations alone, on conflict-dense seeded histories; a consistently wrong winner is therefore detected, not only divergence.",
+            TRUST_CRDT + " The document reference derives container identities for the root, the top node of a put value and array elements only; the generator keeps object values flat accordingly.",
+            "DESIGN.md §4 C02"),
+    "C03": ("exploration", "runtime monitoring: lock-step comparison of one replica with the plain data structure after every call, valid and invalid arguments",
+            "Every call's error-ness, return value, readable state, size and pending-operation count are compared with an executable plain-structure model after each call of seeded sequences that mix valid calls, each listed class of invalid call, reads, transactions and calls on deleted child documents; panics are caught with the call as witness.",
+            TRUST_CRDT + " Calls the statement does not classify (remove of a missing key, zero-value insert, empty document key) may error or be a no-op.",
+            "DESIGN.md §4 C03"),
+    "C04": ("exploration", "runtime monitoring: per-step sequence observer with unique tags (no duplicate / lost / resurrected element, insert-at-index, global pairwise order relation never contradicted)",
+            "After every step of every seeded history the touched replica's whole sequence is read; membership is checked against the operations that replica has applied, and a global before-relation over element identities must never be contradicted on any replica at any moment (not only at quiescence).",
+            TRUST_CRDT, "DESIGN.md §4 C04"),
+    "C09": ("exploration", "runtime monitoring: before/after state comparison around failing transactions, same-identity twin, unit structure check, malformed-unit delivery with panic/hang watchdog",
+            "Failing transactions (random bodies) are bracketed by full state observations (view, reads, meta, pending operations); a twin with the same identity that skips them must stay equal, also in the operations emitted afterwards; committed units are checked for header count and contiguity; truncated / mis-counted units are delivered to fresh replicas and must change nothing, not panic, not hang.",
+            TRUST_CRDT + " Hang = delivery goroutine still inside ReceiveRemoteModelOperations on three stack samples.",
+            "DESIGN.md §4 C09"),
+    "C10": ("exploration", "runtime monitoring: original vs restored-from-snapshot instance under a shared continuation; canonical snapshot comparison",
+            "At random points of multi-replica histories the state is exported and imported into a fresh instance; both then get the same continuation (local calls, transactions, remote deliveries addressing old tombstones and containers) and are compared after every step including emitted operation ids and bodies; re-exports are compared canonically.",
+            TRUST_CRDT + " Import = SetMetaAndSnapshot + ResetTransaction as the SDK's init does.",
+            "DESIGN.md §4 C10"),
+    "C14": ("exploration", "runtime monitoring: codec-chain round trip (proto, BSON document, decode, re-encode, echo service) with same-effect oracle on replicas",
+            "Operations produced by real datatypes from Go-native values of every shape go through every encoding stage; ids, types and JSON bodies must survive, the echo service must return an equivalent operation, and replicas fed with decoded operations must equal the issuing replica.",
+            TRUST_CRDT + " BSON stage = bson.Marshal/Unmarshal of schema.OperationDoc (what the repository layer stores); values are JSON-representable, strings valid UTF-8.",
+            "DESIGN.md §4 C14"),
+    "C15": ("exploration", "runtime monitoring: exhaustive bounded grid + random tuples for Hash injectivity and order axioms; identifier monitors on seeded histories",
+            "Timestamp.Hash is checked injective over an exhaustive grid (2.4M keys) and 10^6 random tuples, the order axioms on 2x10^5 triples, and every history of C01/C03/C09/C15 runs under monitors for gapless client sequence numbers, causality of new operations and distinct identity keys.",
+            TRUST_CRDT + " Grid bounds as stated in the evidence rule; clock differences < 2^62.",
+            "DESIGN.md §4 C15"),
+    "C19": ("exploration", "runtime monitoring: target-equality oracle on patched replica and on receiving replica, unit check of emitted operations; REST half over the real service",
+            "Chains of seeded (current, target) pairs incl. keys needing JSON-pointer escaping, type changes and array growth/shrink/permutation; the patched document must equal the target, emit one unit, and bring a second replica to the target; invalid JSON must be refused without a trace. REST half: OrdaService.PatchDocument against the stored document (see level_note).",
+            TRUST_CRDT + " Targets contain no null. The REST half runs when the E-svc bed is linked in (cases with index%4==3).",
+            "DESIGN.md §4 C19"),
 }
 
 PENDING_REASON = "check not built yet in this revision of /verif (work in progress; DESIGN.md §4 describes the planned monitor)"
